@@ -103,7 +103,12 @@ func checkC01(c *core.Ctx) {
 		if r.Intn(3) == 0 {
 			f.Key = model.RandKey(r)
 		}
-		if judgePitches(c, "random", i, p, f, randWriteOpts(r)) && c.WantSample() {
+		o := randWriteOpts(r)
+		if f.Key == "" && r.Intn(6) == 0 {
+			// a key flag set to its empty default means "no override"
+			o.extra = append(o.extra, [][]string{{"--key", ""}, {"-k", ""}, {"--key="}}[r.Intn(3)]...)
+		}
+		if judgePitches(c, "random", i, p, f, o) && c.WantSample() {
 			c.Sample(pieceDesc(p, f))
 		}
 	})
@@ -245,7 +250,7 @@ func checkC01(c *core.Ctx) {
 			p.Inst = append(p.Inst, in)
 		}
 		o := randWriteOpts(r)
-		o.extra = args
+		o.extra = append(o.extra, args...)
 		if judgePitches(c, "userdict", i, p, model.Flags{}, o) && c.WantSample() {
 			c.Sample(mergeMaps(pieceDesc(p, model.Flags{}), map[string]any{"chord_yaml": short(string(chordsYAML(f.chords)), 1200), "args": strings.Join(args, " ")}))
 		}
